@@ -914,13 +914,12 @@ func (c *eCase) run(mode string) []reqRec {
 			st := pe.GetState()
 			ca, _ := pe.GetMemory().(*cache.Cache)
 			if st == nil || ca == nil {
-				// refused before the engine was prepared: the session is what a new one would be
-				st, ca = state.NewState(uint32(c.flags)), cache.NewCache()
-				if c.cache > 0 {
-					ca = ca.WithCacheSize(uint32(c.cache))
-				}
+				// refused before the engine was prepared: no session state exists yet
+				rec.state = "nostate"
+				rec.calls, rec.lookups = rs.calls, rs.lookups
+			} else {
+				fillRec(&rec, st, ca, rs)
 			}
-			fillRec(&rec, st, ca, rs)
 			recs = append(recs, rec)
 			if rec.x == "panic" || rec.f == "panic" {
 				stopped = true
